@@ -101,7 +101,10 @@ def rand_text(rng):
 def rand_comment_value(rng, kind):
     base = ["value", "a : b", "x:y:z", "# hash", "with, comma", "42", "3.14",
             "path/to/file.csv", "key : value : again", "a#b", "trailing:",
-            "time 12:30:00", "[1, 2, 3]"]
+            "time 12:30:00", "[1, 2, 3]",
+            # text that means something to a formatter or a shell
+            "id={0}:{1}", '{{"a": 1}}', "mm/d: {daily}", "set {a, b}", "open { brace",
+            "100% of %s and %d", "$HOME ${x}", "back\\slash \\n", "{}", "a}b{c"]
     if kind == "dashes":
         return "before ---------- after"
     s = base[int(rng.integers(0, len(base)))]
